@@ -211,11 +211,13 @@ def fit_event(fc, conc: Conc, sup: float | None, rng: np.random.Generator | None
           "sq": qpos(sup, conc.tb[0], conc.tb[1], conc.tau0) if sup is not None else list(quant.NANQ),
           "tau_same": quant.e15(tau_, sup, abs(sup)) if sup is not None else 0,
           "gen_inside": bool(conc.gen_inside()), "rt_m": e9(m_, conc.M0), "rt_tau": e9(tau_, conc.tau0),
-          "opt_e15": 0, "eq_e15": -1,
+          "opt_e15": 0, "opt_e9": 0, "opt_active": False, "eq_e15": -1,
           "raw": {"M_": m_, "tau_": tau_, "supplied": sup}}
     if sup is not None and outcome == "ok":
         opt = bounded_optimum(conc, sup)
         ev["opt_e15"] = quant.e15(m_, opt, abs(opt)) if math.isfinite(opt) and opt != 0 else CAP
+        ev["opt_e9"] = e9(m_, opt) if math.isfinite(opt) and opt != 0 else CAP
+        ev["opt_active"] = bool(opt in (conc.mb[0], conc.mb[1]))   # the closed-form optimum was clipped to a bound
         ev["raw"]["optimum"] = opt
     if sup is None and outcome == "ok" and conc.gen_inside() and rng is not None:
         # scale equivariance: the same data in other units (bounds on M scaled along)
